@@ -3,9 +3,10 @@ import itertools
 
 import compat  # noqa: F401
 from props.base import corpus_for  # noqa: F401
+from props import c11_fns
 
 ID = 'C11'
-LEAN_MODULES = ['PybtexModel.Props.C11']
+LEAN_MODULES = ['PybtexModel.Props.C11', 'PybtexModel.Props.C11x']
 THEOREMS = {
     'C11_matches_spec': 'for EVERY name and format string the model of format_name yields exactly the outcome of the reference rule Spec.formatName (grammar of format strings + formatting rule, transcribed from the property): same string, nesting-limit error exactly where the rule is undefined, syntax error exactly when the format is outside the grammar; never an internal error',
     'C11_malformed_rejected': 'a malformed format string (unbalanced braces, illegal or repeated brace-level-1 letters, "_" at level 1 -- Spec.wellformed, read off the string, twin of the harness predicate) is rejected with a syntax error for every name, never formatted',
@@ -27,6 +28,15 @@ THEOREMS = {
     'C11_full_vs_abbrev_tokens': 'ANY positive number of tokens, post-text not ending in a tie directive "~" (ties: C11_discretionary_tie): f is ff with every token replaced by its own abbreviation (relative to Spec.NameFormat.abbreviate) and, with the default separator, a period in front of every tie and blank; with an explicit separator only the shown tokens differ',
     'C11_letter_run_lowercasing': 'check_format_chars lower-cases the letter run with str.lower(); the model uses the ASCII lower-casing: both accept exactly the same runs (no character outside ASCII is mapped to f, l, v or j: kernel evaluation over the interpreter\'s regenerated str.lower table), and these are the runs the reference grammar decodes',
     'C11_nth_name': 'n-th name: for names joined by " and " (each balanced, no level-0 " and ", stripped) format.name$ with number k+1 formats exactly the k-th name with format_name; a number outside 1..count gives no-such-name ([model wiring]: first test of the model of the repaired built-in, fix a9f9a7a; carried by the correspondence check); never an internal error',
+    'C11_namepart_factored': 'NamePart(format_list).format(person) in the two steps of the code (NamePart.__init__ builds the object -- swap of a lone pre-text, tie from the trailing "~"/"~~", lower-cased letter, abbreviate flag -- then NamePart.format) is the fused model formatPart the clause theorems are stated on, for EVERY person, pre-text, letter run (also runs no parser produces: both end in BibTeXNameFormatError), separator and post-text; hypothesis: the letter run is not the empty string "" (which __init__ treats as None and the fused model does not know)',
+    'C11_nameformat_objects': 'NameFormat(format) as an object, for EVERY format string: a syntax error of the parser is the error of the constructor; otherwise the constructor succeeds (BibTeXNameFormatError unreachable) with one Text / NamePart object per parsed part, and formatting ANY person with the objects gives what the fused formatParts gives on the parsed parts',
+    'C11_objects_match_fused': 'format_name(name, format) computed through the objects (NameFormat(format).format(name), as the code does it) equals the fused model formatName of the other theorems, for every name and format string',
+    'C11_any_person_matches_spec': 'NameFormat(format) applied to ANY person object (five arbitrary token lists: tokens may be empty or contain blanks, commas, unbalanced braces) yields exactly the outcome of the reference rule (Spec grammar + formatPieces) on that person: same string, nesting-limit error exactly where the rule is undefined, syntax error exactly when the format is outside the grammar, never an internal error (C11_matches_spec is the instance person = Person(name))',
+    'C11_abbreviate_is_C12': 'bibtex_first_letter / bibtex_abbreviate as the C11 model uses them are, for every string and separator, the Unicode-aware primitives of the C12 model (TeXU.bibtexFirstLetterG / bibtexAbbreviateG with the interpreter tables), which C12 ties to pybtex.bibtex.utils at function level and specifies (C12_first_letter_spec)',
+    'C11_builtin_through_caches': 'composition with the C18 model of builtins.py (_split_names and _format_name_and_reports behind memoize, FIFO eviction at the regenerated capacity): with split_name_list / format_name instantiated by the C11 models (hypotheses F.splitNames = splitNameList, F.formatOne = c11One), in EVERY cache state satisfying the memoize invariant and under capture() (hypothesis captured = some l), format.name$ returns what the cache-free formatNth says: "" + the no-such-name report outside 1..count; the formatted n-th name with the too-many-commas report iff formatNth has it (hit as miss); the format error with nothing reported',
+    'C11_nth_malformed_rejected': 'the built-in never formats with a malformed format string: for EVERY name list and every name number inside 1..count a malformed format (Spec.wellformed = false) ends in a syntax error (not the nesting limit, not internal); a name number outside the range yields no-such-name before the format is looked at, for every format',
+    'C11_namepart_repr_partial': 'NamePart.__repr__ followed by the constructor gives back a part that is == (NamePart.__eq__) and has no tie -- hypothesis: the format list is one the PARSER can produce (PartOk: a legal letter run, or no letters and an empty post-text); so far only tested (op c11namepart, key eq_repr)',
+    'C11_namepart_repr_neg': '... and not for every format list: NamePart([x, None, None, "~"]) prints as a list that is read back with pre- and post-text swapped (not ==); and __eq__ ignores the tie: {f~} and {f} are == but format a one-letter name as "A~" and "A" (both only matter to the doctests written with them, not to format.name$)',
 }
 RULE = ('names: the fixed sample, the names of the C04 generator of the same tier (a fixed stride of them, one key format each), the C04 token shapes '
         '(<= 2 tokens over all ASCII and non-ASCII token classes, 3 tokens over a reduced class set, comma forms) x 16 key formats, the C04 Unicode '
@@ -36,6 +46,9 @@ RULE = ('names: the fixed sample, the names of the C04 generator of the same tie
         'position of a part, code points at the boundaries of the interpreter\'s \\w / \\d / isalpha tables, brace nesting up to 1200 levels; '
         'every string up to the tier length over {{ }} f l x ~ space _ 1} and systematic two-run / illegal-run / unbalanced parts as (mostly malformed) '
         'formats; the format.name$ built-in on name lists x name numbers (incl. out of range); seeded random names and formats; '
+        'function level: NameFormat(fmt).parts on the format families, NamePart(format_list) over every letter form x pre x separator x post on '
+        'person objects given by token lists (empty tokens, blanks, unbalanced and 101-deep braces, non-ASCII), join / tie_or_space, '
+        'bibtex_abbreviate, the constants of names.py; '
         'non-trivial = format with a name part and a name with more than one token; distinct by case JSON')
 TRUSTED = ['character classes: \\w, \\d (re.UNICODE) and str.isalpha of the running interpreter on single code points, regenerated as range tables '
            'on every run (Gen/FormatChars.lean, Gen/Unicode.lean); the letter run of a format part is lower-cased with the ASCII mapping in the '
@@ -102,6 +115,8 @@ def names_of(case):
 
 def impl(case):
     from pybtex import errors
+    if case['op'] in c11_fns.FN_OPS:
+        return c11_fns.impl(case)
     if case['op'] == 'fmtnth':
         return _impl_nth(case)
     from pybtex.bibtex.names import format_name
@@ -185,6 +200,8 @@ def to_request(case):
 
 
 def valid_case(case):
+    if case.get('op') in c11_fns.FN_OPS:
+        return c11_fns.valid_case(case)
     if case.get('op') == 'fmtnth':
         return isinstance(case.get('parts'), list) and all(isinstance(p, str) for p in case['parts']) and isinstance(case.get('n'), int)
     return isinstance(case.get('name'), str) and isinstance(case.get('fmt'), str)
@@ -236,6 +253,8 @@ def wellformed(fmt):
 
 
 def oracle(case, io, reply):
+    if case['op'] in c11_fns.FN_OPS:
+        return c11_fns.oracle(case, io, reply, wellformed)
     fails = []
     fmt = case['fmt']
     nth = None
@@ -273,6 +292,8 @@ def oracle(case, io, reply):
 
 def buckets(case, io):
     b = [case['op']]
+    if case['op'] in c11_fns.FN_OPS and case['op'] not in ('c11parts', 'c11person'):
+        return b
     if 'error' in io:
         return b + ['error:' + io['error']]
     if 'no_such_name' in io:
@@ -280,13 +301,15 @@ def buckets(case, io):
     b.append('ok')
     if '~' in case['fmt']:
         b.append('tie')
-    text = case['fmt'] + (case.get('name') or ''.join(case.get('parts', [])))
+    text = case['fmt'] + (case.get('name') or ''.join(case.get('parts', [])) or ''.join(t for sl in c11_fns.SLOTS for t in case.get(sl, [])))
     if not text.isascii():
         b.append('non-ascii')
     return b
 
 
 def nontrivial(case, io):
+    if case['op'] in c11_fns.FN_OPS:
+        return case['op'] != 'c11consts' and ('{' in case.get('fmt', '{') and len(case.get('words', 'xx')) > 1)
     if case['op'] == 'fmtnth':
         return '{' in case['fmt'] and len(case['parts']) > 0
     return '{' in case['fmt'] and ' ' in case['name']
@@ -485,6 +508,11 @@ def gen_cases(tier, rng, info):
         else:
             fmt = ''.join(rng.choice(ufpool if i % 4 == 0 else fpool) for _ in range(rng.randint(1, 8)))
         add(name, fmt)
+    # function-level correspondence: the classes and helpers of names.py one by one (props/c11_fns.py)
+    cases += c11_fns.gen(tier, rng, info, {
+        'parts': parts, 'STD': STD, 'KEYFMTS': KEYFMTS, 'UNI_FMTS': UNI_FMTS, 'UNBALANCED': UNBALANCED, 'RUNS2': RUNS2, 'JOINERS': JOINERS,
+        'MAL': MAL, 'PRE': PRE, 'POST': POST, 'DELIM': DELIM, 'fpool': fpool, 'ufpool': ufpool, 'tokens': sorted(set(upool)),
+        'names': NAMES + BACKSLASH_NAMES + HYPHEN_NAMES + WS_NAMES + UNI_NAMES})
     return cases
 
 
@@ -499,7 +527,11 @@ LEVEL_TEXT = ('Machine-checked proof (Lean 4): for EVERY name and EVERY format s
               'abbreviation is stated on tokens written as hyphen-joined pieces (initials of the pieces in order, letterless pieces skipped); the '
               'format.name$ built-in formats exactly the n-th name of a list written with " and ". Letters are the running interpreter\'s Unicode '
               'classes in model and reference. The model AND the reference are tied to the code by the differential check (reference = '
-              'implementation on every case).')
+              'implementation on every case). The classes of names.py are also modelled as objects (NamePart.__init__ / NamePart.format / '
+              'NameFormat.__init__ separately, Model/NameFormatFns.lean), proved equal to the fused model on everything the parser produces, '
+              'and the rule is proved for ANY person object (arbitrary token lists), not only for Person(name); the abbreviation primitive is '
+              'proved to be the C12 one; the built-in through the two memoize caches of builtins.py (C18 model) is proved to return what the '
+              'cache-free n-th-name model returns.')
 LEVEL_NOTE = ('Trusted: Lean kernel; axioms propext/Classical.choice/Quot.sound only; the hand-written model (Model/NameFormat.lean, '
               'Model/NameFormatChars.lean, Model/Names.lean, Model/TeXString.lean) corresponds to pybtex/bibtex/names.py only as far as the '
               'differential check explores; the character classes of the format grammar (\\w, \\d) and of the first letter of a token (isalpha) are '
@@ -519,4 +551,9 @@ LEVEL_NOTE = ('Trusted: Lean kernel; axioms propext/Classical.choice/Quot.sound 
               'observable only with a pre-text before the letters and three or more tokens; (2) BibTeX tokenises names at "-" as well and keeps '
               'the separator per token (name_sep_char), the code keeps hyphenated tokens whole and abbreviates them piecewise -- token counts for '
               'the tie rule may differ on hyphenated names. The format.name$ built-in (name index, memoisation) is driven by the fmtnth family; '
-              'operands of other types are covered by C03.')
+              'operands of other types are covered by C03. Function-level correspondence (props/c11_fns.py): NameFormat(fmt).parts object by '
+              'object, NamePart(format_list) with .format(person) / __repr__ / __eq__, NameFormat on person objects given by token lists (the '
+              'harness repeats the one join line of NameFormat.format, which itself only takes a name string), join / tie_or_space with '
+              'arbitrary tie and space strings, bibtex_abbreviate / bibtex_first_letter, and the constants of names.py the model hard-codes '
+              '(op c11consts, every run). Not modelled: to_python (no caller), Text.__repr__, error message texts and positions; '
+              'coverage/C11.md has the map.')
